@@ -2,9 +2,9 @@
    Only theorem statements, each closed by [exact <lemma>], Examples, and Print Assumptions.
    Model: model/Pos.v.  Specification: spec/PosSpec.v (eff = last write wins, eff_pairs = the
    non-zero pairs, rank = number of pairs that must precede, canon_ok = executable check). *)
-From Coq Require Import NArith List Bool Permutation Sorted.
-From LV Require Import lib.WordArith model.Pos model.PosRlp spec.PosSpec.
-From LV Require Import proofs.PosMapProofs proofs.PosSortProofs proofs.PosBuildProofs proofs.PosBigProofs proofs.PosRlpProofs.
+From Coq Require Import NArith ZArith List Bool Permutation Sorted.
+From LV Require Import lib.WordArith model.Pos model.PosRlp model.PosBig spec.PosSpec.
+From LV Require Import proofs.PosMapProofs proofs.PosSortProofs proofs.PosBuildProofs proofs.PosBigProofs proofs.PosBigZProofs proofs.PosRlpProofs.
 Import ListNotations.
 Local Open Scope N_scope.
 
@@ -63,20 +63,44 @@ Theorem C12_roundtrip_bytes : forall ops vs, weights_fit ops -> Forall (fun p =>
               Permutation (v_values vs') (v_values vs) /\ encode_rlp vs' = encode_rlp vs.
 Proof. exact roundtrip_bytes. Qed.
 
-(* --- big stakes --- *)
+(* --- big stakes ---
+   Model: model/PosBig.v, stakes as the Go type has them (big.Int pointers: signed Z, or nil = None).
+   DOMAIN: the property speaks of stakes ("up to 2^256"), i.e. non-negative amounts.  Every theorem
+   below carries the hypothesis [nonneg_ops ops] = every stake handed to Set is nil or >= 0.
+   It is necessary: with a negative stake Build can panic (C12_big_negative_stake_panics; Uint64()
+   of a negative big.Int is the magnitude).  [opsN ops] are the same Set calls with nil read as 0. *)
 (* never panics; the result is the canonical form of the stakes scaled by the one shift that the
    specification accepts (the least s with total >> s < 2^31), zero results dropped *)
-Theorem C12_big_build : forall ops,
-  shift_ok (spec_total ops) (shift_of (spec_total ops)) = true /\
-  exists vs, big_build ops = Some vs /\
-             v_cache vs = cache_of (sorted_array (big_spec_pairs ops (shift_of (spec_total ops)))) /\
-             Permutation (v_values vs) (big_spec_pairs ops (shift_of (spec_total ops))).
-Proof. exact big_build_spec. Qed.
-Theorem C12_big_never_panics : forall ops, big_build ops <> None.
-Proof. exact big_never_panics. Qed.
+Theorem C12_big_build : forall ops, nonneg_ops ops ->
+  shift_ok (spec_total (opsN ops)) (shift_of (spec_total (opsN ops))) = true /\
+  exists vs, zbig_build ops = Some vs /\
+             v_cache vs = cache_of (sorted_array (big_spec_pairs (opsN ops) (shift_of (spec_total (opsN ops))))) /\
+             Permutation (v_values vs) (big_spec_pairs (opsN ops) (shift_of (spec_total (opsN ops)))).
+Proof. exact zbig_build_spec. Qed.
+Theorem C12_big_never_panics : forall ops, nonneg_ops ops -> zbig_build ops <> None.
+Proof. exact zbig_never_panics. Qed.
+(* the same without the model's sort: the reported arrays pass the rank-based check *)
+Theorem C12_big_canon_ok : forall ops vs, nonneg_ops ops -> zbig_build ops = Some vs ->
+  canon_ok (big_spec_pairs (opsN ops) (shift_of (spec_total (opsN ops))))
+           (combine (sorted_ids vs) (sorted_weights vs)) = true /\
+  total_weight vs = sum_weights (big_spec_pairs (opsN ops) (shift_of (spec_total (opsN ops)))).
+Proof. exact zbig_canon_ok. Qed.
+(* on the domain the *big.Int model is the non-negative one the remaining theorems speak about *)
+Theorem C12_big_nonneg_model : forall ops, nonneg_ops ops -> zbig_build ops = big_build (opsN ops).
+Proof. exact zbig_build_nonneg. Qed.
+(* outside the domain (not a claim of the property; shows the hypothesis cannot be dropped) *)
+Example C12_big_negative_stake_panics :
+  zbig_build [(1, Some (-1)%Z); (2, Some 2147483648%Z)] = None /\
+  zbig_build [(1, Some (-1099511627776)%Z); (2, Some 7%Z)] = None /\
+  (exists vs, zbig_build [(1, Some (-5)%Z); (2, Some 7%Z)] = Some vs /\ sorted_weights vs = [7; 5]).
+Proof. exact zbig_negative_panics. Qed.
 Theorem C12_shift_unique : forall T s1 s2, shift_ok T s1 = true -> shift_ok T s2 = true -> s1 = s2.
 Proof. exact shift_ok_unique. Qed.
-(* big_fits / big_monotone / big_minimal on the scaled stakes *)
+(* big_fits / big_monotone / big_minimal on the scaled stakes (ops : Set calls with non-negative
+   stakes, e.g. [opsN ops']).  "Just enough" is proved in this reading: s is THE least shift with
+   (total stake >> s) <= 2^31-1 (last clause + C12_shift_unique) - the total is what has to fit.  It
+   is not always the least s for which the sum of the individually floored stakes fits
+   (C12_ex_just_enough_reading): the code derives s from bitlen(total) only. *)
 Theorem C12_big_weights : forall ops,
   sum_weights (shifted (shift_of (spec_total ops)) (eff_pairs ops)) <= max_total /\
   (forall p, In p (eff_pairs ops) -> N.shiftr (snd p) (shift_of (spec_total ops)) < 2147483648) /\
@@ -117,6 +141,14 @@ Example C12_ex_bytes : forall vs, build [(5, 7); (300, 70000); (2, 7)] = Some vs
   encode_rlp vs = [206; 199; 130; 1; 44; 131; 1; 17; 112; 194; 2; 7; 194; 5; 7] /\
   decode_rlp_array (encode_rlp vs) = ROk [(300, 70000); (2, 7); (5, 7)].
 Proof. intros vs H. vm_compute in H. inversion H; subst. split; vm_compute; reflexivity. Qed.
+Example C12_ex_just_enough_reading :
+  let ops := [(1, 2147483649); (2, 2147483647)] in
+  shift_of (spec_total ops) = 2 /\ N.shiftr (spec_total ops) 1 = 2147483648 /\
+  sum_weights (shifted 1 (eff_pairs ops)) = 2147483647.
+Proof. exact just_enough_reading. Qed.
+Example C12_ex_big_nil_and_zero : nonneg_ops [(1, Some 5%Z); (1, None); (2, Some 7%Z); (3, Some 0%Z)] /\
+  option_map sorted_ids (zbig_build [(1, Some 5%Z); (1, None); (2, Some 7%Z); (3, Some 0%Z)]) = Some [2].
+Proof. split; [repeat constructor; cbn; discriminate|vm_compute; reflexivity]. Qed.
 Example C12_ex_big :
   let ops := [(1, 2 ^ 200); (2, 2 ^ 199 + 12345); (3, 77); (4, 2 ^ 200 - 1)] in
   shift_of (spec_total ops) = 171 /\
@@ -135,6 +167,8 @@ Print Assumptions C12_rlp_reader_inverts_writer.
 Print Assumptions C12_roundtrip_bytes.
 Print Assumptions C12_big_build.
 Print Assumptions C12_big_never_panics.
+Print Assumptions C12_big_canon_ok.
+Print Assumptions C12_big_nonneg_model.
 Print Assumptions C12_shift_unique.
 Print Assumptions C12_big_weights.
 Print Assumptions C12_big_no_truncation.
